@@ -185,8 +185,11 @@ class ConfigService:
             if self.__is_under(filename, path):
                 return True, path
 
-        if self.__is_under(filename, self.APP_ROOT):
-            return True, self.APP_ROOT
+        app_root = self.APP_ROOT
+        if isinstance(app_root, os.PathLike):
+            app_root = os.fspath(app_root)
+        if self.__is_under(filename, app_root):
+            return True, app_root
 
         return False, None
 
@@ -204,9 +207,12 @@ class ConfigService:
             return []
         if isinstance(value, str):
             return [path for path in value.split(',') if path]
+        if isinstance(value, os.PathLike):
+            return [os.fspath(value)]
         # an empty element (DEEP_IN_APP_EXCLUDE set but empty, a trailing comma) names no prefix:
         # every path starts with ''
-        return [path for path in value if path]
+        # (a path given in code may be a pathlib.Path)
+        return [os.fspath(path) if isinstance(path, os.PathLike) else path for path in value if path]
 
     def _find_plugin(self, plugin_type) -> PLUGIN_TYPE:
         return next(self.__plugin_generator(plugin_type), None)
